@@ -24,6 +24,8 @@ def main():
     ap.add_argument("--needs", default="")
     ap.add_argument("--skip-tests", action="store_true")
     ap.add_argument("--tier", default="quick")
+    ap.add_argument("--demo-rejects", action="store_true",
+                    help="the demo is a translation unit the compiler must REJECT: compile failure counts as rc 0")
     a = ap.parse_args()
     src = Path(a.src)
     checks = (a.checks or a.prop).split(",")
@@ -39,8 +41,17 @@ def main():
         meta["patch_applies"] = True
         demo = src / "demo.cpp"
         flags = a.demo_flags
-        rc0, o0 = sh(f"g++ -std=c++20 -w {flags} -I/repo/lib/core {demo} -o {wt}/demo_clean && {wt}/demo_clean", timeout=900)
-        rc1, o1 = sh(f"g++ -std=c++20 -w {flags} -I{wt}/lib/core {demo} -o {wt}/demo_mut && {wt}/demo_mut", timeout=900)
+        if a.demo_rejects:
+            def rej(inc, exe):
+                rc, o = sh(f"g++ -std=c++20 -w {flags} -I{inc} {demo} -o {exe}", timeout=900)
+                if rc != 0:
+                    return 0, "rejected by the compiler (expected): " + " ".join(l for l in o.splitlines() if "error" in l)[:200]
+                return sh(f"{exe}", timeout=900)
+            rc0, o0 = rej("/repo/lib/core", f"{wt}/demo_clean")
+            rc1, o1 = rej(f"{wt}/lib/core", f"{wt}/demo_mut")
+        else:
+            rc0, o0 = sh(f"g++ -std=c++20 -w {flags} -I/repo/lib/core {demo} -o {wt}/demo_clean && {wt}/demo_clean", timeout=900)
+            rc1, o1 = sh(f"g++ -std=c++20 -w {flags} -I{wt}/lib/core {demo} -o {wt}/demo_mut && {wt}/demo_mut", timeout=900)
         meta["demo"] = {"flags": flags, "clean_rc": rc0, "clean_tail": o0[-300:], "with_change_rc": rc1, "with_change_tail": o1[-400:]}
         meta["ran"].append(f"g++ -std=c++20 {flags} -I<tree>/lib/core demo.cpp && ./a.out  (clean rc={rc0}, with change rc={rc1})")
         if not a.skip_tests:
